@@ -13,7 +13,7 @@ def row(pid, tag, m):
             f"{'no' if notes.get(pid + ('/' + tag if tag != 'r1' else ''), '').startswith(('missed', 'masked', 'not reported')) else ('yes' if c.get('detected') else 'no')} | {det} | {'; '.join(x.strip('[]') for x in c.get('clauses', [])[:2])[:140]} | {ben} | {notes.get(pid + ('/' + tag if tag != 'r1' else ''), '')} |")
 rows = []
 for d in sorted((V/"seeded").glob("C*")):
-    for tag, fn in (("r1", "meta.json"), ("r2", "r2_meta.json")):
+    for tag, fn in (("r1", "meta.json"), ("r2", "r2_meta.json"), ("r3", "r3_meta.json")):
         f = d/fn
         if f.exists():
             rows.append(row(d.name, tag, json.loads(f.read_text())))
